@@ -603,8 +603,9 @@ def node_class(r, case, rand_classes):
         for n in r.expr.walk():
             if isinstance(n, rand_classes):
                 nm = type(n).__name__
-                # Random and its parameter-explicit subclasses (RandomNormal, RandomPoisson) share one mechanism
-                return "Random" if nm in ("RandomNormal", "RandomPoisson") else nm
+                # the two parameter-explicit subclasses (operands are expression operands) share one mechanism;
+                # the generic Random keeps its parameters inside tuple/dict operands
+                return "RandomNormalPoisson" if nm in ("RandomNormal", "RandomPoisson") else nm
     except Exception:
         pass
     return type(r.expr).__name__
@@ -649,7 +650,7 @@ def run_case(case):
                 except Exception as e:
                     if util.innermost_repo_frame(e) == "?":
                         raise  # not raised inside dask_array: a harness bug
-                    return ["gen:" + case["gen"], "dist:" + case["dist"]["name"], "unexpected-exception"], [(util.exc_bucket("unexpected-raises", e), util.exc_detail(e))], None
+                    return ["gen:" + case["gen"], "dist:" + case["dist"]["name"], "unexpected-exception"], [(f"raises|?|{type(e).__name__}|{util.innermost_repo_frame(e)}", "outside the staged checks\n" + util.exc_detail(e))], None
 
 
 def _run_case(case, ctr, rand_classes):
@@ -685,8 +686,24 @@ def _run_case(case, ctr, rand_classes):
     cls = node_class(r, case, rand_classes)
     labs.append("node:" + cls)
     tag = f"{cls}|{ptag}"
+    try:
+        meta_rank_bad = int(np.ndim(r._meta)) != len(case["shape"])
+    except Exception:
+        meta_rank_bad = False
+    if meta_rank_bad:
+        labs.append("meta-rank-mismatch")  # not a C23 failure by itself; used to attribute consumer exceptions
     exact = prog_exact(prog)
-    rtol = 0.0 if exact else RTOL
+    tol = {"rtol": 0.0, "atol": 0.0}
+
+    def set_tolerance(R):
+        """rtol 1e-12 (64 eps for float32 data) on the largest magnitude, plus the rounding
+        of re-associated sums: 1024 eps * sum|R| (a sum of a centred sample can be ~0)."""
+        if exact:
+            return
+        eps = float(np.finfo(R.dtype).eps) if R.dtype.kind == "f" else float(np.finfo("f8").eps)
+        mass = float(np.sum(np.abs(R.astype("f8")))) if R.size else 0.0
+        tol["rtol"] = max(RTOL, 64 * eps)
+        tol["atol"] = 1024 * eps * max(1.0, mass)
 
     def fail(kind, detail):
         fails.append((f"{kind}|{tag}", detail))
@@ -700,6 +717,18 @@ def _run_case(case, ctr, rand_classes):
     def differs(check, detail):
         unstable.append((check, detail))
 
+    def raised(stage, e, label=""):
+        """An exception is bucketed by type and innermost dask_array frame only: the same
+        root cause surfaces at several stages (metadata, compute, a consumer's build) and
+        NumPy words one broadcast failure differently per distribution."""
+        b = f"raises|{tag}|{type(e).__name__}|{util.innermost_repo_frame(e)}"
+        if meta_rank_bad and stage != "base-compute":
+            # r advertises a _meta of the wrong rank: consumers that consult it (concatenate, None-indexing, ...)
+            # fail in their own ways; the root cause is the one broken precondition
+            b = f"raises|{tag}|meta-rank-mismatch"
+        if not any(b == b0 for b0, _ in fails):
+            fails.append((b, f"stage={stage} {label}\n{util.exc_detail(e)}"))
+
     def derived(label):
         """Build and compute the derived program once; None on refusal/failure."""
         stage = "build"
@@ -711,14 +740,14 @@ def _run_case(case, ctr, rand_classes):
             labs.append("refused-NotImplementedError")
             return None, None
         except Exception as e:
-            fails.append((util.exc_bucket(f"derived-{stage}-raises|{tag}", e), f"{label}: {util.exc_detail(e)}"))
+            raised(f"derived-{stage}", e, label)
             return None, None
 
     def cmp_derived(Y, R, label):
         if Y is None or R is None:
             return
         exp = np_prog(R, prog)
-        why = util.same(Y, exp, rtol=rtol, atol=0.0)
+        why = util.same(Y, exp, rtol=tol["rtol"], atol=tol["atol"])
         if why is not None:
             differs("derived-differs", f"{label}: {why}\n prog={util.canon(prog)}\n got={util.short(Y)}\n exp={util.short(exp)}")
 
@@ -727,8 +756,7 @@ def _run_case(case, ctr, rand_classes):
             with dask.config.set({"array.optimize-graph": flag}):
                 return np.asarray(r.compute())
         except Exception as e:
-            # no message in the bucket: NumPy words the same broadcast failure differently per distribution
-            fails.append((f"base-compute-raises|{tag}|{type(e).__name__}|{util.innermost_repo_frame(e)}", f"{label}: {util.exc_detail(e)}"))
+            raised("base-compute", e, label)
             return None
 
     ctr.on = True  # from here on every Random-family construction is a re-instantiation
@@ -760,11 +788,12 @@ def _run_case(case, ctr, rand_classes):
             if R is None:
                 return labs, fails, None
     obs = observe(r, R)
+    set_tolerance(R)
     # advertised metadata
     try:
         adv_shape, adv_dtype = tuple(r.shape), r.dtype
     except Exception as e:
-        fails.append((f"base-meta-raises|{tag}|{type(e).__name__}|{util.innermost_repo_frame(e)}", util.exc_detail(e)))
+        raised("base-metadata", e, "r.shape / r.dtype")
         adv_shape = adv_dtype = None
     if adv_shape is not None:
         if tuple(R.shape) != adv_shape and not any(isinstance(s_, float) and s_ != s_ for s_ in adv_shape):
@@ -798,16 +827,16 @@ def _run_case(case, ctr, rand_classes):
                 labs.append("refused-NotImplementedError")
                 forms = ()
             except Exception as e:
-                fails.append((util.exc_bucket(f"optimize-raises|{tag}", e), util.exc_detail(e)))
+                raised("optimize", e, "simplify/lower_completely/fuse of the derived program")
                 forms = ()
             exp = np_prog(R, prog)
             for fname, ex in forms:
                 try:
                     v = _compute_expr(ex)
                 except Exception as e:
-                    fails.append((util.exc_bucket(f"form-{fname}-raises|{tag}", e), util.exc_detail(e)))
+                    raised(f"form-{fname}-compute", e)
                     continue
-                why = util.same(v, exp, rtol=rtol, atol=0.0)
+                why = util.same(v, exp, rtol=tol["rtol"], atol=tol["atol"])
                 if why is not None:
                     differs(f"form-differs:{fname}", f"{fname} form vs twin(R): {why}\n prog={util.canon(prog)}\n got={util.short(v)}\n exp={util.short(exp)}")
             if forms and fused_with_consumer(forms[-1][1], rand_classes):
@@ -833,7 +862,7 @@ def _run_case(case, ctr, rand_classes):
         try:
             O = np.asarray(other.compute())
         except Exception as e:
-            fails.append((util.exc_bucket(f"neighbour-raises|{tag}", e), util.exc_detail(e)))
+            raised("neighbour-compute", e)
         if O is not None:
             same_vals = O.shape == R.shape and np.array_equal(O, R, equal_nan=True)
             if other.name == r.name and not same_vals:
@@ -862,7 +891,7 @@ def _run_case(case, ctr, rand_classes):
                         aname = alias.name if alias is not None else None
                         del pair, alias
                     except Exception as e:
-                        fails.append((util.exc_bucket(f"pair-raises|{tag}", e), util.exc_detail(e)))
+                        raised("pair", e, variant)
                         break
                     why = util.same(Z, expZ, rtol=RTOL, atol=0.0)
                     if why is not None:
@@ -876,7 +905,7 @@ def _run_case(case, ctr, rand_classes):
         name2 = r2.name
         R4 = np.asarray(r2.compute())
     except Exception as e:
-        fails.append((util.exc_bucket(f"rebuild-raises|{tag}", e), util.exc_detail(e)))
+        raised("rebuild", e)
         r2 = None
     if r2 is not None:
         if name2 != r.name:
@@ -905,7 +934,7 @@ def _run_case(case, ctr, rand_classes):
         except NotImplementedError:
             pass
         except Exception as e:
-            fails.append((util.exc_bucket(f"alt-chunks-raises|{tag}", e), util.exc_detail(e)))
+            raised("alt-chunks", e)
     del keep_alive
     return labs, fails, obs
 
@@ -924,6 +953,23 @@ def compare_fresh(case, obs, out, tag):
     if what:
         return [(f"fresh-differs|{tag}", "rebuild in a fresh interpreter (other PYTHONHASHSEED):\n" + "\n".join(what))]
     return []
+
+
+# ---- structural predicates a known-findings entry can name ("predicate": "c23:...") ----
+
+
+def _register_predicates():
+    from vf import known
+
+    known.PREDICATES["c23:array-params"] = lambda c: bool(array_param_names(c["dist"]))
+    known.PREDICATES["c23:array-params-normal-poisson"] = lambda c: bool(array_param_names(c["dist"])) and c["dist"]["name"] in ("normal", "poisson")
+    known.PREDICATES["c23:array-params-generic"] = lambda c: bool(array_param_names(c["dist"])) and c["dist"]["name"] not in ("normal", "poisson")
+    known.PREDICATES["c23:choice"] = lambda c: c["dist"]["name"] == "choice"
+    known.PREDICATES["c23:choice-int-population-concat"] = lambda c: c["dist"]["name"] == "choice" and isinstance(c["dist"]["a"], int) and any(s["op"] == "concat_self" for s in c["prog"])
+    known.PREDICATES["c23:neighbour-draw"] = lambda c: c["k"] >= 1 or c["after"] >= 1
+
+
+_register_predicates()
 
 
 def case_tag(case, labs):
@@ -1200,9 +1246,9 @@ def run_shard(spec, seed):
 def plan(tier):
     scale = float(os.environ.get("VERIF_SCALE", "1"))
     if tier == "quick":
-        n, k, fb, fs = 2400, 16, 2, 12
+        n, k, fb, fs = 2000, 16, 2, 12
     else:
-        n, k, fb, fs = 60000, 48, 6, 20
+        n, k, fb, fs = 48000, 48, 6, 20
     per = max(5, int(n * scale / k))
     return [{"cases": per, "fresh_batches": fb, "fresh_batch": fs} for _ in range(k)]
 
@@ -1236,6 +1282,8 @@ def shrink(case):
         c.update(kw)
         return c
 
+    if os.environ.get("C23_SHRINK") == "0":  # debugging knob: report failures un-minimised
+        return
     if case.get("fresh"):
         yield mod(fresh=False)
     prog = case.get("prog", [])
@@ -1269,6 +1317,8 @@ def shrink(case):
             else:
                 nc[ax] = nc[ax][:-1]
             yield mod(shape=ns, chunks=nc, alt_chunks=None)
+    if case.get("fresh"):
+        return  # every candidate of a fresh-interpreter failure costs a subprocess: structural candidates only
     from vf.runner import _generic_shrink
 
     yield from _generic_shrink(case)
